@@ -7,7 +7,9 @@ point or the budget is exhausted.  Everything is deterministic."""
 import time
 
 
-def shrink(values, test, budget_s=60.0, max_tests=1500):
+def shrink(values, test, budget_s=60.0, max_tests=1500, hints=None):
+    """``hints(values) -> iterable of candidate lists`` (optional, check-specific, e.g. "drop one whole
+    operation of the history"): tried first in every round."""
     t0 = time.time()
     best = list(values)
     ntests = [0]
@@ -39,6 +41,17 @@ def shrink(values, test, budget_s=60.0, max_tests=1500):
     while improved and not out_of_budget():
         improved = False
         rounds += 1
+        # 0. check-specific structural candidates
+        if hints is not None:
+            progress = True
+            while progress and not out_of_budget():
+                progress = False
+                for cand in hints(list(best)):
+                    if out_of_budget():
+                        break
+                    if attempt(cand):
+                        improved = progress = True
+                        break
         # 1. truncate
         n = len(best)
         cut = n // 2
